@@ -312,3 +312,64 @@ def resolve_one(eng, fn: FunctionInfo, e: ast.AST) -> str:
     r = resolve_all(eng, fn, e)
     return r[0] if len(r) == 1 else " | ".join(r)
 
+
+def misguarded_member_stores(eng, fn: FunctionInfo) -> List[Tuple[ast.AST, str]]:
+    """stores `d["member"] = value` whose controlling test is the *absence* of the value that is stored (writer emits an optional
+    member exactly when it has nothing to emit, and drops it when it has).  Returns (store node, reason)."""
+    from ..cfg import cfg_of
+    out = []
+    cfg = cfg_of(fn)
+    for n in cfg.nodes:
+        st = n.ast
+        if n.kind != "stmt" or not isinstance(st, ast.Assign) or len(st.targets) != 1 or not isinstance(st.targets[0], ast.Subscript):
+            continue
+        key = const_value(st.targets[0].slice)
+        if not isinstance(key, str):
+            continue
+        vtexts = resolve_all(eng, fn, st.value) + [norm(st.value)]
+        for t in cfg.nodes:
+            if t.kind != "test" or t.ast is None:
+                continue
+            # does t control the store, and with which outcome?
+            r_true = n in cfg.reachable(cfg.entry, edge_filter=lambda a, b, lab, _t=t: not (a is _t and lab == "false"))
+            r_false = n in cfg.reachable(cfg.entry, edge_filter=lambda a, b, lab, _t=t: not (a is _t and lab == "true"))
+            if r_true == r_false:
+                continue
+            e = t.ast
+            pos = True
+            subject = None
+            if isinstance(e, ast.Compare) and len(e.ops) == 1:
+                if isinstance(e.ops[0], (ast.IsNot, ast.Is)) and is_const(e.comparators[0], None):
+                    subject = norm(e.left)
+                    pos = isinstance(e.ops[0], ast.IsNot)
+                elif isinstance(e.ops[0], (ast.In, ast.NotIn)):
+                    subject = f"{norm(e.comparators[0])}[{norm(e.left)}]"
+                    pos = isinstance(e.ops[0], ast.In)
+            elif isinstance(e, (ast.Name, ast.Attribute, ast.Subscript)):
+                subject = norm(e)
+            if subject is None:
+                continue
+            subs = resolve_all(eng, fn, e.left if isinstance(e, ast.Compare) and not isinstance(e.ops[0], (ast.In, ast.NotIn)) else e) if not isinstance(e, ast.Compare) or \
+                not isinstance(e.ops[0], (ast.In, ast.NotIn)) else []
+            cands = {subject} | {x for x in subs if len(x) > 2}
+            if not any(c in v for c in cands for v in vtexts):
+                continue
+            needed_outcome_true = r_true and not r_false
+            if needed_outcome_true != pos:
+                out.append((st, f"member {key!r} is written when `{subject}` is absent / empty and dropped when it is present"))
+    return out
+
+
+def shape(eng, fn: FunctionInfo, e: ast.AST) -> str:
+    """text of e with the locals of fn (not parameters, not module-level names) replaced by `$`: identifies a construct without
+    depending on today's variable names (used for whitelist / known-finding keys)"""
+    import copy
+    loc = eng.cg.local_names(fn) - set(fn.params)
+
+    class Sub(ast.NodeTransformer):
+        def visit_Name(self, n: ast.Name):
+            if n.id in loc:
+                return ast.copy_location(ast.Name(id="$", ctx=n.ctx), n)
+            return n
+    return norm(Sub().visit(copy.deepcopy(e)))
+
